@@ -43,6 +43,13 @@ pub struct Case {
     /// kitchen-sink document index when `raw` is None
     pub kitchen: Option<usize>,
     pub cfg: BCfg,
+    /// protobuf document (generated / kitchen sink / side document) instead of a Thrift one
+    #[serde(default)]
+    pub proto: Option<vcore::pschema::RawPDoc>,
+    #[serde(default)]
+    pub pkitchen: Option<usize>,
+    #[serde(default)]
+    pub pside: Option<usize>,
 }
 
 impl Shrink for Case {
@@ -56,6 +63,11 @@ impl Shrink for Case {
                 if c != self.cfg {
                     out.push(Case { cfg: c, ..self.clone() });
                 }
+            }
+        }
+        if let Some(pr) = &self.proto {
+            for c in pr.candidates() {
+                out.push(Case { proto: Some(c), ..self.clone() });
             }
         }
         if let Some(r) = &self.raw {
@@ -101,7 +113,70 @@ fn signature(stage: &str, text: &str) -> String {
     format!("{}:{}", stage, vrt::total::panic_signature(&detail))
 }
 
+/// Side documents for the protobuf known findings: (finding key, document).
+pub fn proto_side_docs() -> Vec<(&'static str, Vec<(String, String)>)> {
+    vec![
+        (
+            "proto-recursive-oneof",
+            vec![("side.proto".to_string(), "syntax = \"proto3\";\nmessage Node {\n  int32 v = 1;\n  oneof next {\n    Node child = 2;\n    string name = 3;\n  }\n}\n".to_string())],
+        ),
+        (
+            "proto-import-without-package",
+            vec![
+                ("side.proto".to_string(), "syntax = \"proto3\";\nimport \"lib.proto\";\nmessage A {\n  Outer.Inner m = 1;\n}\n".to_string()),
+                ("lib.proto".to_string(), "syntax = \"proto3\";\nmessage Outer {\n  message Inner {\n    int32 a = 1;\n  }\n}\n".to_string()),
+            ],
+        ),
+    ]
+}
+
+fn proto_files(c: &Case) -> Option<Vec<(String, String)>> {
+    if let Some(r) = &c.proto {
+        return Some(vcore::pschema::resolve_pdoc(r).print_files());
+    }
+    if let Some(k) = c.pkitchen {
+        return Some(vcore::kitchen::proto_docs()[k].print_files());
+    }
+    if let Some(k) = c.pside {
+        return Some(proto_side_docs()[k].1.clone());
+    }
+    None
+}
+
+fn run_proto_case(c: &Case, files: Vec<(String, String)>, slot: &str) -> Result<(), Fail> {
+    let dir = work_dir().join("c14").join(slot);
+    let _ = std::fs::remove_dir_all(&dir);
+    let idl = dir.join("idl");
+    for (name, text) in &files {
+        write_if_changed(&idl.join(name), text);
+    }
+    let out = dir.join("out").join("gen.rs");
+    let _ = std::fs::create_dir_all(out.parent().unwrap());
+    let main = idl.join(&files[0].0);
+    let mut args: Vec<String> = vec!["proto".into(), out.to_string_lossy().into(), main.to_string_lossy().into(), "--include-dir".into(), idl.to_string_lossy().into()];
+    if c.cfg.split {
+        args.push("--split".into());
+    }
+    if !c.cfg.change_case {
+        args.push("--no-change-case".into());
+    }
+    let b = run_vbuild(&args, Some(1 + (slot.len() % 4) * 2), 60);
+    let idl_text: String = files.iter().map(|(n, t)| format!("// {}\n{}\n", n, t)).collect();
+    if !b.ok {
+        let all = format!("{}\n{}", b.stderr, b.stdout);
+        return Err(Fail::new(&signature("proto-builder", &all), format!("pilota-build failed on a .proto document ({}, config {}):\n{}\n--- IDL\n{}", b.status, c.cfg.tag(), vcore::evidence::truncate(&b.stderr, 700), vcore::evidence::truncate(&idl_text, 1500))));
+    }
+    if let Err(e) = typecheck(&out, &dir.join("tc"), "2021") {
+        return Err(Fail::new(&signature("proto-rustc", &e), format!("Rust generated from a .proto document does not type-check (config {}):\n{}\n--- IDL\n{}", c.cfg.tag(), vcore::evidence::truncate(&e, 900), vcore::evidence::truncate(&idl_text, 1500))));
+    }
+    let _ = std::fs::remove_dir_all(&dir);
+    Ok(())
+}
+
 pub fn run_case(c: &Case, slot: &str) -> Result<(), Fail> {
+    if let Some(files) = proto_files(c) {
+        return run_proto_case(c, files, slot);
+    }
     let doc = doc_of(c);
     let dir = work_dir().join("c14").join(slot);
     let _ = std::fs::remove_dir_all(&dir);
@@ -218,7 +293,7 @@ pub fn run(ctx: &Ctx) -> i32 {
     let all_cfg = BCfg::all();
     for k in 0..vcore::kitchen::thrift_docs().len() {
         for c in &all_cfg {
-            cases.push(Case { raw: None, kitchen: Some(k), cfg: *c });
+            cases.push(Case { raw: None, kitchen: Some(k), cfg: *c, proto: None, pkitchen: None, pside: None });
         }
     }
     let n_hostile = ctx.tier.pick(70, 1500) as usize;
@@ -228,13 +303,22 @@ pub fn run(ctx: &Ctx) -> i32 {
         // two configurations per document, all sixteen for every tenth
         let pick: Vec<BCfg> = if i % 10 == 0 { all_cfg.clone() } else { vec![all_cfg[(i * 7) % 16], all_cfg[(i * 11 + 5) % 16]] };
         for c in pick {
-            cases.push(Case { raw: Some(raw.clone()), kitchen: None, cfg: c });
+            cases.push(Case { raw: Some(raw.clone()), kitchen: None, cfg: c, proto: None, pkitchen: None, pside: None });
         }
     }
     for (i, raw) in sample(&arb_raw_doc(GenOpts::default()), ctx.seed, "c14-plain", n_plain).into_iter().enumerate() {
         for c in [all_cfg[(i * 5) % 16], all_cfg[(i * 3 + 9) % 16]] {
-            cases.push(Case { raw: Some(raw.clone()), kitchen: None, cfg: c });
+            cases.push(Case { raw: Some(raw.clone()), kitchen: None, cfg: c, proto: None, pkitchen: None, pside: None });
         }
+    }
+    let pcfgs = [BCfg { split: false, keep: false, change_case: true, ignore_unused: false }, BCfg { split: true, keep: false, change_case: true, ignore_unused: false }, BCfg { split: false, keep: false, change_case: false, ignore_unused: false }];
+    for k in 0..vcore::kitchen::proto_docs().len() {
+        for c in pcfgs {
+            cases.push(Case { raw: None, kitchen: None, cfg: c, proto: None, pkitchen: Some(k), pside: None });
+        }
+    }
+    for (i, praw) in sample(&vcore::pschema::arb_raw_pdoc(), ctx.seed, "c14-proto", ctx.tier.pick(30, 600) as usize).into_iter().enumerate() {
+        cases.push(Case { raw: None, kitchen: None, cfg: pcfgs[i % 3], proto: Some(praw), pkitchen: None, pside: None });
     }
     // ---- run them on all cores
     let results: std::sync::Mutex<Vec<(usize, Result<(), Fail>)>> = Default::default();
@@ -257,6 +341,20 @@ pub fn run(ctx: &Ctx) -> i32 {
     let mut by_key: std::collections::BTreeMap<String, (usize, Fail)> = Default::default();
     for (i, r) in &results {
         let c = &cases[*i];
+        if let Some(files) = proto_files(c) {
+            let mut rr = rec.borrow_mut();
+            let text: String = files.iter().map(|(n, t)| format!("// {}\n{}\n", n, t)).collect();
+            rr.case(fp(c), text.contains("oneof") || text.contains("map<") || files.len() > 1 || text.matches("message ").count() >= 3, || json!({"config": c.cfg.tag(), "proto": vcore::evidence::truncate(&text, 500)}));
+            rr.class("protobuf document");
+            rr.class_if(files.len() > 1, "protobuf: import");
+            rr.class_if(text.contains("oneof"), "protobuf: oneof");
+            rr.class_if(text.contains("syntax = \"proto2\""), "protobuf: proto2");
+            drop(rr);
+            if let Err(f) = r {
+                by_key.entry(f.key.clone()).or_insert((*i, f.clone()));
+            }
+            continue;
+        }
         let doc = doc_of(c);
         let feats = features(&doc, c.raw.as_ref());
         {
@@ -311,7 +409,7 @@ pub fn run(ctx: &Ctx) -> i32 {
                     if i >= docs.len() {
                         break;
                     }
-                    let c = Case { raw: Some(docs[i].clone()), kitchen: None, cfg: all_cfg[(i * 5) % 16] };
+                    let c = Case { raw: Some(docs[i].clone()), kitchen: None, cfg: all_cfg[(i * 5) % 16], proto: None, pkitchen: None, pside: None };
                     if run_case(&c, &format!("side{}", t)).is_err() {
                         hits.fetch_add(1, std::sync::atomic::Ordering::SeqCst);
                     }
@@ -326,8 +424,18 @@ pub fn run(ctx: &Ctx) -> i32 {
             r.known_hit(key);
         }
     }
+    for (k, (key, _)) in proto_side_docs().into_iter().enumerate() {
+        if !ctx.findings.is_open("C14", key) {
+            continue;
+        }
+        rec.borrow_mut().class(&format!("side stream: {}", key));
+        let c = Case { raw: None, kitchen: None, cfg: pcfgs[0], proto: None, pkitchen: None, pside: Some(k) };
+        if run_case(&c, "pside").is_err() {
+            rec.borrow_mut().known_hit(key);
+        }
+    }
     if rec.borrow().violations.is_empty() {
-        if let Some(c) = require_classes(&rec, &["keyword identifier", "case-collision pair", "cross-file include", "default literal", "pilota annotation", "recursive / forward-referencing type", "hostile identifier pool"]) {
+        if let Some(c) = require_classes(&rec, &["protobuf document", "protobuf: oneof", "protobuf: proto2", "keyword identifier", "case-collision pair", "cross-file include", "default literal", "pilota annotation", "recursive / forward-referencing type", "hostile identifier pool"]) {
             rec.borrow().finish(&ctx.findings);
             return c;
         }
